@@ -637,6 +637,43 @@ pub fn gen_for(suite: &str, tier: &str, rng: &mut Rng, emit: &mut dyn FnMut(Stri
                     }
                 }
             }
+            // dates with a weekday offset (`Jan 1+Su`, `easter-Fr`, `Dec 25+Mo-Jan 6`): the whole
+            // fortnight around the date in years where the date falls on every weekday in turn (so
+            // also on the target weekday itself, where the offset must do nothing), for every
+            // target weekday and both signs
+            for (base, (m, dd)) in [("Jan 1", (1u32, 1u32)), ("Dec 25", (12, 25)), ("Jun 15", (6, 15)), ("Feb 29", (2, 29))] {
+                for y in [2023, 2024, 2025, 2026, 2027, 2028, 2029, 2032] {
+                    let Some(c) = chrono::NaiveDate::from_ymd_opt(y, m, dd).map(ast::day_num) else { continue };
+                    for (i, w) in wd.iter().enumerate() {
+                        for sign in ["+", "-"] {
+                            if !thorough && (i + y as usize) % 2 == 1 {
+                                continue;
+                            }
+                            let single = enc(&format!("{base}{sign}{w}"));
+                            let range = enc(&format!("{base}{sign}{w}-{base} +12 days"));
+                            for d in c - 8..=c + 8 {
+                                emit(format!("c01.sched {d} - {single}"));
+                                if (d - c) % 2 == 0 || thorough {
+                                    emit(format!("c01.sched {d} - {range}"));
+                                }
+                            }
+                        }
+                    }
+                }
+            }
+            for y in [2023, 2024, 2025, 2030] {
+                let Some(c) = crate::bdays::easter_day(y) else { continue };
+                for w in wd {
+                    for sign in ["+", "-"] {
+                        let e = enc(&format!("easter{sign}{w}"));
+                        let e2 = enc(&format!("easter {sign}{w} +1 day-easter +10 days"));
+                        for d in c - 8..=c + 9 {
+                            emit(format!("c01.sched {d} - {e}"));
+                            emit(format!("c01.sched {d} - {e2}"));
+                        }
+                    }
+                }
+            }
             if thorough {
                 // every day of two full years for 500 expressions
                 for _ in 0..500 {
